@@ -972,7 +972,88 @@ func c01HandWritten(c *Ctx, pp *pop.Population, tr *an.Tracer) {
 		if m.Name == "MessageContainer" {
 			c01Container(c, w, rd, tr, key)
 		}
+		// who consumes the constructor id?  The by-id path reads it before UnmarshalTL; when the type is named,
+		// tl.Decode has to - unless UnmarshalTL reads it itself
+		readsID := false
+		if len(rd.Blocks) > 0 {
+			for _, cs := range an.Calls(rd) {
+				if strings.HasSuffix(cs.Name, "Decoder).PopCRC") && cs.Block == rd.Blocks[0] {
+					readsID = true
+				}
+			}
+		}
+		if !readsID {
+			ok, why := decodeConsumesIDForUnmarshalers(c)
+			r.Check(ok, "R01.H", key+"/by-name:id-consumed", c.pos(rd.Pos()), "UnmarshalTL starts after the constructor id (the registry path has read it); tl.Decode(data, &v) reads and checks the id before it hands a value that is both an Object and an Unmarshaler to its UnmarshalTL: "+why)
+		}
 	}
+}
+
+// decodeConsumesIDForUnmarshalers: tl.Decode calls PopCRC behind comma-ok assertions of its destination to
+// tl.Object and tl.Unmarshaler, compares the id with the destination's CRC() and does not go on when they differ.
+func decodeConsumesIDForUnmarshalers(c *Ctx) (bool, string) {
+	f := c.P.Func(load.TLPkg, "", "Decode")
+	if f == nil {
+		return false, "tl.Decode not found"
+	}
+	var pop ssa.Instruction
+	var popVal ssa.Value
+	for _, cs := range an.Calls(f) {
+		if strings.HasSuffix(cs.Name, "Decoder).PopCRC") {
+			pop = cs.Instr
+			popVal = cs.Value()
+		}
+	}
+	if pop == nil {
+		return false, "tl.Decode does not read the id"
+	}
+	guards := map[string]bool{}
+	var cmp *an.Cond
+	for _, i := range an.Ifs(f) {
+		cd, ok := an.Classify(i)
+		if !ok {
+			continue
+		}
+		if cd.Kind == "assert" && cd.Assert != nil {
+			name := cd.Assert.AssertedType.String()
+			if len(an.Guarded(f, []an.Edge{cd.EdgeWhen(true)}, []ssa.Instruction{pop})) == 0 {
+				guards[name[strings.LastIndex(name, ".")+1:]] = true
+			}
+		}
+		if cd.Kind == "eq" && (cd.X == popVal || cd.Y == popVal) {
+			cmp = cd
+		}
+	}
+	if !guards["Object"] || !guards["Unmarshaler"] {
+		return false, "the read of the id is not confined to values that are both tl.Object and tl.Unmarshaler"
+	}
+	if cmp == nil {
+		return false, "the id read is not compared with the destination's CRC()"
+	}
+	var next []ssa.Instruction
+	for _, cs := range an.Calls(f) {
+		if strings.HasSuffix(cs.Name, "Decoder).decodeValue") {
+			next = append(next, cs.Instr)
+		}
+	}
+	reach := an.ReachFrom(f, cmp.EdgeWhen(false), nil)
+	for _, n := range next {
+		if reach[n.Block()] {
+			// reachable after a mismatch only if the error set on that edge is ignored
+			errSet := false
+			for _, in := range cmp.EdgeWhen(false).To().Instrs {
+				if st, ok := in.(*ssa.Store); ok {
+					if fa, ok := st.Addr.(*ssa.FieldAddr); ok && strings.HasSuffix(an.FieldName(fa.X.Type(), fa.Field), "Decoder.err") {
+						errSet = true
+					}
+				}
+			}
+			if !errSet {
+				return false, "after a mismatching id Decode goes on to decode the value"
+			}
+		}
+	}
+	return true, ""
 }
 
 // c01Container compares the per-message layout written and read by MessageContainer's codec with
@@ -1049,6 +1130,39 @@ func reachesBlock(from, to *ssa.BasicBlock, seen map[*ssa.BasicBlock]bool) bool 
 // the size and cannot be evaluated from the size and the bytes left alone is reported as undecided.
 func c01Admission(c *Ctx) {
 	r := c.R
+	// an empty read is no read: bytes.Reader.Read answers io.EOF at the end of the input even for an empty
+	// buffer, so a zero-length field that happens to be the last thing in a message (the empty body of the last
+	// message of a container) would set the sticky error on input the encoder itself produced
+	if rf := c.fn("R01.V", load.TLPkg, "*Decoder", "read"); rf != nil && len(rf.Params) == 2 {
+		n := 0
+		for _, cs := range an.Calls(rf) {
+			if cs.Name != "(*bytes.Reader).Read" && !strings.HasSuffix(cs.Name, ").Read") {
+				continue
+			}
+			n++
+			buf := rf.Params[1]
+			guarded := an.DominatingGuard(rf, cs.Instr, func(cd *an.Cond) int {
+				isLen := func(v ssa.Value) bool {
+					call, ok := v.(*ssa.Call)
+					return ok && an.CalleeName(call.Common()) == "builtin:len" && len(call.Call.Args) == 1 && call.Call.Args[0] == ssa.Value(buf)
+				}
+				zero := func(v ssa.Value) bool { k, ok := an.ConstInt(v); return ok && k == 0 }
+				switch {
+				case cd.Kind == "eq" && (isLen(cd.X) && zero(cd.Y) || isLen(cd.Y) && zero(cd.X)):
+					return cd.EdgeWhen(false).Succ
+				case cd.Kind == "ord" && isLen(cd.X) && zero(cd.Y) && cd.Rel == ">":
+					return 0
+				case cd.Kind == "ord" && isLen(cd.X) && zero(cd.Y) && cd.Rel == "<=":
+					return 1
+				}
+				return -1
+			})
+			r.Check(guarded, "R01.V", sprintf("admission:read/zero-length-is-no-read#%d", n), c.pos(cs.Pos()), "the Read of the underlying reader is issued only for a non-empty buffer (len(buf) != 0 on every path to it)")
+		}
+		if n == 0 {
+			r.Undecide("R01.V", "admission:read/zero-length-is-no-read", c.pos(rf.Pos()), "no Read call found in Decoder.read")
+		}
+	}
 	type site struct {
 		recv, fn, key string
 		unit          int64 // bytes per element for the honest grid
